@@ -188,14 +188,14 @@ pub fn run(ctx: &mut Ctx) -> Result<(), Violation> {
     ctx.rule = "Enumerated: box seeds of EVERY length 0..=128 (+1 KiB) x fills x content classes through crypto_box_seed_keypair(_inplace) and KeyPair::from_seed (array/Vec/stack, locked on nightly); kx and signing seeds (random, zero, 0xff) through classic and object constructors; secret keys with every combination of the 5 clamped bits (x random bodies) through KeyPair::from_secret_key; PwHash::derive_keypair over (password, salt length 8..=32, ops 1..=3, mem 8..=64 KiB); honest Ed25519 pairs from seeds through both conversions. Oracle: libsodium constructions (SHA-512 + scalarmult_base; crypto_box/kx/sign_seed_keypair; crypto_pwhash or internal argon2id_hash_raw; crypto_sign_ed25519_{pk,sk}_to_curve25519), model cross-checks (BLAKE2b, X25519 ladder, birational map), consistency conv_pk = base(conv_sk), and a box made with converted keys opening under libsodium. Non-trivial: seed length != 32, unclamped secret key, derive or conversion case; distinct = input hash.".into();
     ctx.assumptions = vec!["libsodium constructions are the reference".into()];
     let seed = ctx.seed;
-    let k = ctx.tier.pick(4usize, 64);
+    let k = ctx.tier.pick(16usize, 128);
     let mut cases = vec![];
     for len in (0..=128usize).chain([1024usize]) {
         for fi in 0..k {
             cases.push(Case::BoxSeed { seed: Hex(Fill::new(seed, &format!("C13:box:{len}:{fi}")).content(fi, len)) });
         }
     }
-    let n = ctx.tier.pick(500usize, 50_000);
+    let n = ctx.tier.pick(5000usize, 100_000);
     for i in 0..n {
         let mut f = Fill::new(seed, &format!("C13:{i}"));
         let s = f.content(if i < 3 { i + 1 } else { 0 }, 32);
@@ -206,7 +206,7 @@ pub fn run(ctx: &mut Ctx) -> Result<(), Violation> {
         }
     }
     for bits in 0u32..32 {
-        for fi in 0..ctx.tier.pick(4, 64) {
+        for fi in 0..ctx.tier.pick(16, 128) {
             let mut sk: [u8; 32] = Fill::new(seed, &format!("C13:sk:{bits}:{fi}")).arr();
             // the 5 bits clamping touches: 0,1,2 of byte 0 and 6,7 of byte 31
             sk[0] = (sk[0] & 0xf8) | (bits & 7) as u8;
@@ -214,7 +214,7 @@ pub fn run(ctx: &mut Ctx) -> Result<(), Violation> {
             cases.push(Case::FromSecretKey { sk: Hex(sk.to_vec()) });
         }
     }
-    for i in 0..ctx.tier.pick(120usize, 2000) {
+    for i in 0..ctx.tier.pick(700usize, 5000) {
         let mut f = Fill::new(seed, &format!("C13:derive:{i}"));
         let saltlen = if i % 3 == 0 { 16 } else { 8 + i % 25 };
         let pwl = f.below(64) as usize;
